@@ -1,5 +1,7 @@
 package node
 
+import "strconv"
+
 type SymTbl []map[string]int
 
 // STRewriter is a recursive node transformation that resolves local and
@@ -24,6 +26,11 @@ func (f Function) STRewrite(symTbl SymTbl) Type {
 	// assign parameters to scope
 	for i, t := range f.Parameters.Elems {
 		name := t.(Name)
+		if prev, ok := scope[string(name)]; ok {
+			// a repeated parameter name: the earlier parameter keeps its frame
+			// slot under a key no variable can have, the name means the later one
+			scope[strconv.Itoa(prev)] = prev
+		}
 		scope[string(name)] = i
 	}
 
